@@ -24,6 +24,26 @@ BUILT = {
             "For all 22 indicators (periods 1..4, tuples over {1,2,3}): every prefix history over values, NaN/inf/extreme values and resets up to depth 4/6, then reset(), then every continuation of length max(n+2,4) over finite values, NaN and +inf compared step by step with a fresh instance; continuations explored once per distinct post-reset concrete state (bincode+Debug); Display/period()/multiplier() compared; long-prefix family for periods up to 64/256.",
             "De-duplication assumes equal bincode+Debug state implies equal futures; every reported difference is a real execution.",
             "DESIGN.md 4/C04"),
+    "C05": ("model_checking",
+            "exhaustive schedule enumeration with a controlled scheduler over real OS threads; oracle = bit-identical to fresh sequential replay",
+            "For all 22 indicators (periods 1,3) and every history up to depth 3 at which a clone is taken: all 90 interleavings of 2-operation continuations on {original, clone, unrelated instance}; every assignment of the 6 steps to 2 (thorough: 3) real worker threads up to renaming for three canonical interleavings, clone taken on either worker; every pair of continuations for original and clone; each output must be bit-identical to a fresh instance replaying that object's own operations. A sampled free-running 16-thread stage is supplementary and labelled as sampling.",
+            "Operation-level atomicity is complete only while instances share no memory; a syntactic audit of /repo/src re-checks that premise on every run and the evidence says so if it trips. Merges x assignments are covered as a union of slices, not the full product.",
+            "DESIGN.md 2.3, 4/C05"),
+    "C06": ("model_checking",
+            "bounded-exhaustive history enumeration; every prefix a checkpoint (crash point), de-duplicated by concrete state; differential oracle original-by-replay vs restored copy",
+            "For all 22 indicators (periods 1..4): every history over values, NaN and resets up to depth 4/6 is a checkpoint; the real object is serialized with bincode and restored once and twice; every continuation of n+2 inputs is fed to the original (rebuilt by replay) and both restored copies and compared at 1e-12 relative; Display/period()/multiplier() compared; every lattice DataItem that build() accepts round-trips to an equal value.",
+            "bincode only; continuation alphabet of 3 finite values.",
+            "DESIGN.md 4/C06"),
+    "C07": ("model_checking",
+            "bounded-exhaustive sequence enumeration + exhaustive orderings of macro-step regimes; range invariant on every state",
+            "RSI, FastStochastic, SlowStochastic, MFI, ER: every sequence over positive and mixed-sign alphabets / valid bars / bars with volume for periods 1..5, and all 6^3 orderings of {up, down, one-tick, oscillation, gap, flat} segments (scalar and bar paths, volumes 1e-3..1e9); at every step whose reference denominator is non-zero the output must lie in [0,100] ([0,1]) with the stated slack.",
+            "Inside a macro regime values follow a fixed generator; MFI gated at c<=1000 as the statement says.",
+            "DESIGN.md 4/C07"),
+    "C08": ("model_checking",
+            "bounded-exhaustive enumeration of active prefixes x flat levels x stretch lengths on the real code; neutral-value invariant",
+            "All 22 indicators, periods 1..8: every active prefix over {2,0.3,1e6,7.7,1e9} up to depth 4 (3 for exponential-memory kinds at small periods), five flat levels, scalar / one-price-bar / same-bar / zero-volume stretches of every length up to 64..1300 (thorough 600..6000): at every step with a degenerate reference window the output must be finite, in range and neutral where a neutral value is documented.",
+            "Finite prefix alphabet; stretch lengths bounded (long enough for period<=3 exponential averages to underflow).",
+            "DESIGN.md 4/C08"),
 }
 
 NOT_YET = "check not built yet in this revision of /verif (work in progress; see DESIGN.md section 4)"
